@@ -425,6 +425,11 @@ def run(run):
                        ("layer-above-rayleigh-guide-star", dict(gs_altitudes=np.array([0.0, 6000.0, 12000.0][:nw]),
                                                                 layer_altitudes=np.array([0.0, 8000.0]))),
                        ("identical-masks", dict(pupil_masks=np.array([g0["pupil_masks"][0]] * nw))),
+                       # equal sub-aperture COUNTS, different masks (a mask and its mirror image), with a layer on the ground
+                       ("mirrored-masks-equal-counts", dict(pupil_masks=np.array([g0["pupil_masks"][1], g0["pupil_masks"][1][::-1, ::-1].copy(), g0["pupil_masks"][1].T.copy()][:nw]))),
+                       # beams further apart than the outer scale at altitude (small telescope, wide field, small L0)
+                       ("footprints-further-apart-than-L0", dict(gs_positions=np.array([[150.0, -100.0], [-120.0, 90.0], [0.0, 0.0]][:nw]),
+                                                                 layer_altitudes=np.array([0.0, 12000.0]), layer_L0s=np.array([25.0, 6.0]))),
                        ("equal-wavelengths-unequal-diameters", dict(wfs_wavelengths=np.array([600e-9] * nw),
                                                                     subap_diameters=np.array([1.0, 0.5, 1.0][:nw])))):
         ref2 = np.array(new_object(sc, nw, mod=mod).make_covariance_matrix(), copy=True)
